@@ -246,14 +246,14 @@ fn finish_event(s: Session, out: &mut Out, version: Option<(u8, u8)>) {
 fn new_session<'g>(g: &'g Gram, out: &mut Out, how: &str, seed: u64) -> Session<'g> {
     let b = match how {
         "default" => Builder::default(),
-        "from_module" => {
+        "from_module" | "from_module0" | "from_module1" => {
             let mut m = dr::Module::new();
-            m.header = Some(dr::ModuleHeader::new(41));
+            m.header = Some(dr::ModuleHeader::new(match how { "from_module0" => 0, "from_module1" => 1, _ => 41 }));
             Builder::new_from_module(m)
         }
         _ => Builder::new(),
     };
-    out.ev(json!({"ev": "bnew", "how": how, "bound": if how == "from_module" { 41 } else { 1 }}));
+    out.ev(json!({"ev": "bnew", "how": how, "bound": match how { "from_module" => 41, "from_module0" => 0, _ => 1 }}));
     Session { b, a: Args::new(g, seed) }
 }
 
@@ -501,6 +501,27 @@ fn suite_ids(g: &Gram, out: &mut Out, seed: u64, table: &Value) {
         }
     }
     suite_prefix_types(g, out, seed);
+    // "starting at the header bound when continuing an existing module": the smallest bounds
+    for how in ["from_module0", "from_module1"] {
+        let mut s = new_session(g, out, how, seed);
+        for _ in 0..3 { logged_call(&mut s, out, "id", true); }
+        logged_call(&mut s, out, "type_void", true);
+        logged_call(&mut s, out, "id", true);
+        finish_event(s, out, None);
+    }
+    // an explicit id the builder never handed out (at or above its counter), then the same request implicitly: the
+    // earlier declaration is an earlier declaration whatever its id
+    for (m_id, m_impl) in [("type_int_id", "type_int"), ("type_vector_id", "type_vector"), ("type_bool_id", "type_bool")] {
+        for explicit in [1u32, 9, 5000] {
+            let mut s = new_session(g, out, "new", seed);
+            s.a.rng = Rng::new(seed + 4711); s.a.counter = 7000; s.a.explicit_rid = Some(explicit);
+            logged_call(&mut s, out, m_id, true);
+            s.a.rng = Rng::new(seed + 4711); s.a.counter = 7000; s.a.explicit_rid = None;
+            logged_call(&mut s, out, m_impl, true);
+            logged_call(&mut s, out, "id", true);
+            finish_event(s, out, None);
+        }
+    }
 }
 
 /// variable-arity type requests whose operand lists are prefixes / extensions of one another (C13: never share an id;
